@@ -251,7 +251,7 @@ def mk(kind, **a):
     if kind == 'Range':
         return Case(kind, [a['rw'], a['hi'], a['lo']], [a['aw']], [a['rw']], lambda L, s, i, o: L.Range(s, 'dut', i[0], a['hi'], a['lo'], o[0]))
     if kind in ('BitsLSBF', 'BitsMSBF'):
-        return Case(kind, [a['aw']], [a['aw']], [1] * a['aw'], lambda L, s, i, o: getattr(L, kind)(s, 'dut', i[0], o))
+        return Case(kind, [a['aw']], [a['aw']], a.get('ows', [1] * a['aw']), lambda L, s, i, o: getattr(L, kind)(s, 'dut', i[0], o))
     if kind in ('ConcatenateMSBF', 'ConcatenateLSBF'):
         return Case(kind, [a['rw']] + a['ws'], a['ws'], [a['rw']], lambda L, s, i, o: getattr(L, kind)(s, 'dut', i, o[0]))
     if kind == 'Repeat':
@@ -689,6 +689,94 @@ def aliased_vectors(case, r, limit, n):
     return vs
 
 
+NAMED_MULTISETS = [[4, 2, 6], [2, 1, 3], [8, 4, 12], [3, 1, 4, 4], [1, 2, 3, 6], [5, 3, 7], [2, 2, 5, 3], [1, 1, 4], [6, 1, 2, 3], [16, 8, 24],
+                   [3, 5, 4], [1, 3, 2, 2], [7, 1, 1, 3]]
+
+
+def coincidence_width_lists(tier):
+    """width lists of UNEQUAL widths that satisfy an arithmetic coincidence a shortcut could mistake for "all equal":
+    sum = n * w_k for some position k (first, last, any), sum a power of two, sum = 2 * max, first = last, plus every
+    permutation of a few multisets (seed C08l: `total_w == len(ins) * ins[0].getWidth()` taken for "equal widths")"""
+    import itertools
+    out, seen = [], set()
+
+    def add(ws):
+        t = tuple(ws)
+        if t not in seen and len(set(ws)) > 1:
+            seen.add(t)
+            out.append(list(ws))
+    wmax, nmax = (4, 4) if tier == 'quick' else (6, 5)
+    for n in range(3, nmax + 1):
+        for ws in itertools.product(range(1, wmax + 1), repeat=n):
+            tot = sum(ws)
+            if any(tot == n * w for w in ws) or (tier != 'quick' and (tot == 2 * max(ws) or tot & (tot - 1) == 0) and ws[0] == ws[-1]):
+                add(ws)
+    for ms in NAMED_MULTISETS:
+        perms = sorted(set(itertools.permutations(ms)))
+        for pm in (perms if tier != 'quick' or len(perms) <= 6 else perms[:6] + perms[-3:]):
+            add(pm)
+    for ws in ([4, 8], [3, 1], [1, 3], [2, 6]):            # two-input controls
+        add(ws)
+    return out
+
+
+def marker_vectors(case, r, n_extra):
+    """per-field marker values: one field non-zero at a time (all ones / 1 / top bit), distinct markers in every field, all ones,
+    alternating; 1-bit inputs next to wider ones (selects) additionally one-hot and all active"""
+    inw = case.inw
+    n = len(inw)
+    vs = []
+    for j in range(n):
+        for v in (M(inw[j]), 1, 1 << (inw[j] - 1)):
+            X = [0] * n
+            X[j] = v
+            vs.append(X)
+    vs.append([M(w) for w in inw])
+    vs.append([(j + 1) & M(w) for j, w in enumerate(inw)])
+    vs.append([(M(w) // 3) if j % 2 else (M(w) - M(w) // 3) for j, w in enumerate(inw)])
+    vs.append([(1 << (w - 1)) | (j & M(max(w - 1, 0))) for j, w in enumerate(inw)])
+    sel = [j for j, w in enumerate(inw) if w == 1]
+    if sel and len(sel) < n:
+        base = list(vs)
+        for hot in sel + [None]:
+            for X in base[-4:] + base[:6]:
+                Y = list(X)
+                for j in sel:
+                    Y[j] = 1 if hot is None else int(j == hot)
+                vs.append(Y)
+    for _ in range(n_extra):
+        vs.append([r.bits(w) for w in inw])
+    return vs
+
+
+def coincidence_cases(tier):
+    """the list-shaped blocks over the coincidence width lists"""
+    C = []
+    step = 5 if tier == 'quick' else 8
+    for li, ws in enumerate(coincidence_width_lists(tier)):
+        tot, n, mx = sum(ws), len(ws), max(ws)
+        for k in ('ConcatenateLSBF', 'ConcatenateMSBF'):
+            C.append(mk(k, rw=tot, ws=ws))
+            if li % 2 == 0:
+                C.append(mk(k, rw=tot + 3, ws=ws))
+        if li % step:                                          # the other list-shaped blocks: on every step-th list
+            continue
+        if tot <= 24:
+            C.append(mk('BitsLSBF', aw=n, ows=ws))             # output wires of these widths
+            C.append(mk('BitsMSBF', aw=n, ows=ws))
+        for k in ('And', 'Or', 'Xor', 'Nor'):
+            C.append(mk(k, rw=mx, ws=ws))
+        C.append(mk('Select', rw=mx, ns=n, ws=ws))
+        C.append(mk('OneHotMux', rw=mx, ns=n, ws=ws))
+        C.append(mk('SelectDefault', rw=mx, ns=n, ws=ws, dw=mx))
+        C.append(mk('OneHotDemux', aw=mx, ns=n, ows=ws))
+        if n == 4:
+            C.append(mk('Mux', rw=mx, sw=2, ws=ws))
+        C.append(mk('AnyEqual', rw=1, ws=ws))
+        C.append(mk('PriorityEncoder', ws=ws, rw=mx, inc=True))
+    return C
+
+
 WIDE_WIDTHS = [63, 64, 65, 96, 128]        # 63/64 = controls, 65/96/128 = beyond one machine word
 
 
@@ -938,6 +1026,14 @@ def main(res, tier, rng, replay):
                      (mk('Equal', aw=4, bw=4, rw=2), [[5, 5], [5, 4]]),
                      (mk('AnyEqual', rw=1, ws=[4, 4, 4]), [[9, 3, 9], [1, 2, 3], [0, 0, 0]])):
         b.add(rc, 'x', vecs)
+    # list-shaped blocks over width lists with arithmetic coincidences (sum = n * w_k, permutations of a multiset, ...)
+    cr = r.fork('coincidence')
+    for ci2, cc in enumerate(coincidence_cases(tier)):
+        if sum(cc.inw) <= (8 if tier == 'quick' else 11):
+            b.add(cc, 'all', all_vectors(cc.inw))
+        else:
+            b.add(cc, 'x', marker_vectors(cc, cr.fork(ci2), 3 if tier == 'quick' else 30))
+        res.hist('coincidence_width_lists', cc.kind)
     # the same Wire object at several input positions
     ar = r.fork('alias')
     for ai, ac in enumerate(aliased_cases(tier)):
